@@ -22,7 +22,7 @@ ENV.pop("GOTOOLCHAIN", None)
 
 
 def sh(cmd, cwd=None, timeout=3600, env=None):
-    p = subprocess.run(cmd, cwd=cwd, shell=isinstance(cmd, str), capture_output=True, text=True, timeout=timeout, env=env or ENV)
+    p = subprocess.run(cmd, cwd=cwd, shell=isinstance(cmd, str), capture_output=True, text=True, errors="replace", timeout=timeout, env=env or ENV)
     return p.returncode, p.stdout + p.stderr
 
 
